@@ -53,6 +53,15 @@ CHECKS = {
             "STEEL_INLINE_RECURSIVE, STEEL_CLOSURE_LIFTING, STEEL_MODULE_INLINE); per step the (status, value, output) must be identical. No reference needed.",
             "Trusted: determinism of the programs. Decides agreement for the enumerated programs only.",
             "DESIGN.md §3 C02"),
+    "C06": ("model_checking",
+            "bounded exhaustive exploration of evaluation histories on the real engine (every history of a structured event alphabet, replayed from a pristine engine in a forked child), with a binding-cell reference model evaluated in lock step after every event",
+            "Every history built from: base definitions; up to 2 (thorough 3) setup events from 16 observer kinds (readers, callers, stored closures, factory "
+            "closures, native-valued globals) and 8 change kinds (redefine / set!); an optional failing unit (4 kinds); an optional slot-recycling phase (101/201/401 "
+            "shadowing units past the recycler threshold, then 320 fresh definitions that reuse every freed slot); an optional late change. After every event "
+            "all observers are evaluated on the implementation and compared with the binding-cell semantics of vp/ref_scheme.py.",
+            "Trusted: the reference's binding-cell model (a unit's references resolve to the cells in force after its own defines; a unit rejected at compile time "
+            "changes nothing). Longer histories and more names are outside the bound.",
+            "DESIGN.md §3 C06"),
 }
 
 NOT_YET = {}
